@@ -17,6 +17,7 @@ type Lexer struct {
 	ch     rune   // current character
 	pos    token.Position
 	eof    bool
+	err    error // first error other than io.EOF returned by the reader
 }
 
 // Item represents a lexical token with its value and position.
@@ -45,6 +46,7 @@ func (l *Lexer) readChar() {
 
 	r, size, err := l.reader.ReadRune()
 	if err != nil {
+		l.recordErr(err)
 		l.ch = 0
 		l.eof = true
 		return
@@ -60,11 +62,31 @@ func (l *Lexer) readChar() {
 	l.ch = r
 }
 
+// recordErr remembers the first reader error that is not a legitimate end of input.
+func (l *Lexer) recordErr(err error) {
+	if err != nil && err != io.EOF && err != bufio.ErrBufferFull && l.err == nil {
+		l.err = err
+	}
+}
+
+// peek returns up to n bytes of look-ahead, remembering a reader error instead of dropping it.
+func (l *Lexer) peek(n int) ([]byte, error) {
+	bytes, err := l.reader.Peek(n)
+	l.recordErr(err)
+	return bytes, err
+}
+
+// Err returns the first error other than io.EOF that the underlying reader returned,
+// or nil if the input ended normally.
+func (l *Lexer) Err() error {
+	return l.err
+}
+
 func (l *Lexer) peekChar() rune {
 	if l.eof {
 		return 0
 	}
-	bytes, err := l.reader.Peek(1)
+	bytes, err := l.peek(1)
 	if err != nil || len(bytes) == 0 {
 		return 0
 	}
@@ -77,7 +99,7 @@ func (l *Lexer) peekCharN(n int) rune {
 	if l.eof || n < 1 {
 		return 0
 	}
-	bytes, _ := l.reader.Peek(n * 4) // max 4 bytes per UTF-8 rune, ignore error
+	bytes, _ := l.peek(n * 4) // max 4 bytes per UTF-8 rune, ignore error
 	if len(bytes) == 0 {
 		return 0
 	}
@@ -107,7 +129,7 @@ func (l *Lexer) skipWhitespace() {
 func (l *Lexer) isIdentifierAfterDot() bool {
 	// We're currently at '.', peek ahead to check the pattern
 	// Save current reader position by peeking
-	bytes, _ := l.reader.Peek(32) // peek enough to see the pattern, ignore EOF error
+	bytes, _ := l.peek(32) // peek enough to see the pattern, ignore EOF error
 	if len(bytes) == 0 {
 		return false
 	}
@@ -768,7 +790,7 @@ func (l *Lexer) tryReadDollarTag() string {
 	// Peek ahead to check the pattern $tag$ where tag is identifier chars
 	// We're currently at $, so peek from position 1 onwards
 	// Peek a large buffer to find both opening and closing tags
-	bytes, _ := l.reader.Peek(8192) // peek enough to find closing tag
+	bytes, _ := l.peek(8192) // peek enough to find closing tag
 	if len(bytes) == 0 {
 		return ""
 	}
